@@ -145,8 +145,13 @@ def run_case(ctx, case):
             pool.append(inst)
             # caller-owned argument objects are guarded from now on - except those of do_not_copy attributes, which the
             # instance holds by identity by design
-            held = {id(v) for n, v in object.__getattribute__(inst, "__dict__").items() if n in dnc}
-            args.extend(r for r in rec if id(r) not in held)
+            # (a list argument of a do_not_copy keyed attribute is cast into a new container around the very same items: what
+            # counts is whether the argument shares mutable objects with what the instance holds, not the container's identity)
+            held = set()
+            for n, v in object.__getattribute__(inst, "__dict__").items():
+                if n in dnc:
+                    held.update(mutable_ids(v))
+            args.extend(r for r in rec if not (set(mutable_ids(r)) & held))
             continue
         if not pool:
             continue
